@@ -7,6 +7,9 @@ import PkVerif.Gen.Facts
 /-! `pkmodel-c01`: storage configurations behind a line protocol.
 
     cfg <prefix expression>       e.g.  cfg overlay mem shard2 mem ns mem
+                                  shardN <n> <kid0> … <kid n-1> | replicaN <n> <kid0> … <kid n-1>:
+                                  n-way nodes, built as the right-nested tree of two-way nodes
+                                  (Cfg.shardNest / Cfg.replicaNest; theorems C01_shardN_tree, C01_replicaN_tree)
     recv <keyhex> <valhex> | fetch <k> | stat <k>… | enum <afterhex> <limit> | rm <k>…
 -/
 namespace Pk.Drv.C01
@@ -14,17 +17,30 @@ open Pk Pk.RefMap Pk.Stores
 
 def tbl : Pk.Ref.Tbl := ⟨Gen.refSizes, Gen.testRefTypes, Gen.maxOtherDigestLen⟩
 
-/-- shard.go:74 `b.Sum32() % uint32(len(shards))` with two shards -/
+/-- shard.go:74 `b.Sum32() % uint32(len(shards))` with two shards (token `shard2`; `shardN` uses `sum32`) -/
 def route (k : Bytes) : Bool :=
   match Pk.Ref.parse tbl k true with
   | some r => (match Pk.Ref.sum32 r with | some v => v % 2 == 1 | none => false)
   | none => false
+
+/-- `b.Sum32()` of a ref text (0 when the text is not a ref: the harness sends refs only) -/
+def sum32 (k : Bytes) : Nat :=
+  match Pk.Ref.parse tbl k true with
+  | some r => (match Pk.Ref.sum32 r with | some v => v | none => 0)
+  | none => 0
 
 /-- the driver's instance of cond's sniffing predicate: the generated schema blobs all start with
 `{"camliVersion"` and no generated non-schema blob does -/
 def isSchema (v : Bytes) : Bool :=
   (ofString "{\"camliVersion\"").isPrefixOf v
 
+mutual
+partial def parseKids : Nat → List String → Option (List Cfg × List String)
+  | 0, r => some ([], r)
+  | n + 1, r =>
+    match parseCfg r with
+    | some (c, r1) => (parseKids n r1).map (fun (cs, r2) => (c :: cs, r2))
+    | none => none
 partial def parseCfg : List String → Option (Cfg × List String)
   | "mem" :: r => some (.mem, r)
   | "files" :: r => some (.leaf (Pk.Files.filesImpl tbl), r)
@@ -51,7 +67,27 @@ partial def parseCfg : List String → Option (Cfg × List String)
     match parseCfg r with
     | some (a, r1) => (parseCfg r1).map (fun (b, r2) => (.cond2 a b, r2))
     | none => none
+  | "shardN" :: n :: r =>
+    -- shard.go:74 `b.Sum32() % uint32(len(shards))` picks the sub-store
+    match n.toNat? with
+    | some m =>
+      if 1 ≤ m ∧ m ≤ 16 then
+        match parseKids m r with
+        | some (k :: ks, r1) => some (Cfg.shardNest sum32 m 0 k ks, r1)
+        | _ => none
+      else none
+    | none => none
+  | "replicaN" :: n :: r =>
+    match n.toNat? with
+    | some m =>
+      if 1 ≤ m ∧ m ≤ 16 then
+        match parseKids m r with
+        | some (k :: ks, r1) => some (Cfg.replicaNest k ks, r1)
+        | _ => none
+      else none
+    | none => none
   | _ => none
+end
 
 def showPairs (l : List (Bytes × Nat)) : String :=
   " ".intercalate (l.map (fun p => s!"{toHexString p.1}:{p.2}"))
